@@ -3,8 +3,9 @@
 
   Geometry is abstracted away; what is kept is exactly the laziness / option / scratch
   bookkeeping of
-    s2/shapeindex.go   ShapeIndex: Add, Reset, Build, maybeApplyUpdates, applyUpdatesInternal,
-                       isFirstUpdate, pendingAdditionsPos, status
+    s2/shapeindex.go   ShapeIndex: Add, Remove, Reset, Build, maybeApplyUpdates, applyUpdatesInternal,
+                       isFirstUpdate, pendingAdditionsPos, pendingRemovals, status, Len (as the old
+                       shape-id sentinel of makeIndexCell)
     s2/edge_query.go   EdgeQuery: opts (a *pointer* shared with the caller's EdgeQueryOptions),
                        findEdgesInternal (`e.opts = opts`), findEdge (`opts.MaxResults(1)`),
                        IsDistanceLess (MaxResults(1).DistanceLimit(l).MaxError(Straight) on e.opts),
@@ -36,7 +37,26 @@
     D51 the inner query of an index target caches indexNumEdges / indexCovering of the TARGET's index
         and nothing ever resets them: after a shape is added to the target's index the target answers
         from the stale covering (present on the current tree; found by work package c13targets).
+    D52 `makeIndexCell` used `Len()` as the shape-id sentinel of its merge loop; ids are never reused, so
+        after a `Remove` a present shape can have an id ≥ `Len()` and its entries in the index cells come out
+        wrong (edge-free interior cells lose `containsCenter`, cells with its edges get an entry for the
+        phantom id `Len()`); repaired in /repo 58d7f1b (sentinel `nextID`).
+    D53 `CrossingEdgeQuery.candidatesEdgeMap`: `if len(c.index.shapes) == 1 { shape := c.index.Shape(0) …`:
+        after `Remove` the single present shape need not have id 0; `Shape(0)` is nil and `candidates`
+        dereferences it (found by work package c13remove; repaired in /repo ef8934e).
   `Fixes` selects, per defect, the faithful behaviour (false) or the minimal repair (true).
+
+  REMOVE (work package c13remove).  `Remove(shape)` deletes the key from the map `shapes` — ids are never
+  reused (`nextID` only grows) — returns at once when the shape was never indexed (`id >= pendingAdditionsPos`,
+  status untouched), otherwise appends to `pendingRemovals` and stores `stale`.  `applyUpdatesInternal` (since
+  a4a8224) rebuilds the WHOLE index on a non-first update with anything pending, `removeShapeInternal` is an
+  empty stub.  In the model the list `shapes` stays positional (position = id): a removed id keeps the
+  tombstone `Shape.gone = ⟨0, false⟩` and is recorded in `gone`.  Every modelled reader of the map skips a
+  missing key (`addShapeInternal`: `!ok → return`; `NumEdgesUpTo`: `nil → continue`; the `range shapes` loops of
+  the brute-force search and of `visitContainingShapes`), which is what it does with a shape without edges and
+  without interior; the readers for which a missing key is NOT the same as an empty shape are exactly the ones
+  that use `Len()`: D52 and D53 (`Index.numPresent`).  The op is `remove k`: the k-th present shape (the caller
+  names a shape by identity, not by id).
 
   TARGETS (s2/min_distance_targets.go).  Point / edge / cell targets are values without state.  An
   index target owns a ShapeIndex and an EdgeQuery on it (`m.query`); what a call sees of it is
@@ -57,12 +77,14 @@ structure Fixes where
   d19 : Bool  -- FullPolygon gets an index
   d49 : Bool  -- findEdgesInternal calls target.setMaxError on every query, also with maxError = 0
   d51 : Bool  -- an index target drops the caches of its inner query at every call
+  d52 : Bool  -- makeIndexCell: sentinel nextID instead of Len()
+  d53 : Bool  -- CrossingEdgeQuery: the single-shape shortcut looks the shape up instead of assuming id 0
 deriving DecidableEq, Repr
 
-def Fixes.none : Fixes := ⟨false, false, false, false, false, false⟩
-def Fixes.all : Fixes := ⟨true, true, true, true, true, true⟩
+def Fixes.none : Fixes := ⟨false, false, false, false, false, false, false, false⟩
+def Fixes.all : Fixes := ⟨true, true, true, true, true, true, true, true⟩
 /-- the repairs present in /repo (D51 is open) -/
-def Fixes.tree : Fixes := ⟨true, true, true, true, true, false⟩
+def Fixes.tree : Fixes := ⟨true, true, true, true, true, false, true, true⟩
 
 inductive Status | stale | updating | fresh
 deriving DecidableEq, Repr, Inhabited
@@ -74,18 +96,42 @@ deriving DecidableEq, Repr, Inhabited
 
 def Shape.live (s : Shape) : Bool := s.edges != 0 || s.interior
 
+/-- what a removed id holds in the positional list `Index.shapes` (the Go map has no such key) -/
+def Shape.gone : Shape := ⟨0, false⟩
+
 /-! ### ShapeIndex -/
 
 structure Index where
-  shapes : List Shape          -- position = shape id (no Remove in the modelled alphabet)
+  shapes : List Shape          -- position = shape id; a removed id holds `Shape.gone`
   nextID : Nat
   pendingAdditionsPos : Nat
   status : Status
   cells : List Nat
+  gone : List Nat := []              -- ids deleted from the map `shapes` since the last Reset
+  pendingRemovals : List Nat := []   -- `pendingRemovals` (the shape ids of the queued `removedShape`s)
 deriving DecidableEq, Repr, Inhabited
 
 /-- `NewShapeIndex()` -/
-def Index.new : Index := ⟨[], 0, 0, .fresh, []⟩
+def Index.new : Index := ⟨[], 0, 0, .fresh, [], [], []⟩
+
+/-- `Len()` = `len(s.shapes)`: the number of keys in the map -/
+def Index.numPresent (s : Index) : Nat := s.shapes.length - s.gone.length
+
+/-- the ids `i, i+1, …, i+n-1` that are still in the map, ascending -/
+def presentFrom (gone : List Nat) : Nat → Nat → List Nat
+  | 0, _ => []
+  | n + 1, i => if gone.contains i then presentFrom gone n (i + 1) else i :: presentFrom gone n (i + 1)
+
+/-- the ids still in the map (of an index that has handed out the ids `0 … n-1`), ascending -/
+def presentIds (n : Nat) (gone : List Nat) : List Nat := presentFrom gone n 0
+
+/-- the shapes still in the map, in id order (`i` = id of the head of the list) -/
+def denseFrom (gone : List Nat) : List Shape → Nat → List Shape
+  | [], _ => []
+  | s :: t, i => if gone.contains i then denseFrom gone t (i + 1) else s :: denseFrom gone t (i + 1)
+
+/-- what a FRESH index over the current geometry holds: the present shapes, added in id order (ids `0 … m-1`) -/
+def dense (shapes : List Shape) (gone : List Nat) : List Shape := denseFrom gone shapes 0
 
 /-- ids (base + position) of the live shapes of a list -/
 def liveFrom : List Shape → Nat → List Nat
@@ -102,22 +148,48 @@ def pendingLive (shapes : List Shape) (pos : Nat) : List Nat := liveFrom (shapes
 def Index.add (s : Index) (sh : Shape) : Index × Nat :=
   ({ s with shapes := s.shapes ++ [sh], nextID := s.nextID + 1, status := .stale }, s.nextID)
 
-/-- `Reset`: shapes, nextID, cellMap, cells, status — *not* pendingAdditionsPos (D5). -/
-def Index.reset (f : Fixes) (s : Index) : Index :=
-  { s with shapes := [], nextID := 0, cells := [], status := .fresh,
-           pendingAdditionsPos := if f.d5 then 0 else s.pendingAdditionsPos }
+/-- `Remove(shape)` for the shape with id `id` (a present one):
+    `delete(s.shapes, id); if id >= s.pendingAdditionsPos { return };
+     s.pendingRemovals = append(s.pendingRemovals, removed); atomic.StoreInt32(&s.status, stale)` -/
+def Index.remove (s : Index) (id : Nat) : Index :=
+  let s := { s with shapes := s.shapes.set id Shape.gone, gone := s.gone ++ [id] }
+  if id ≥ s.pendingAdditionsPos then s
+  else { s with pendingRemovals := s.pendingRemovals ++ [id], status := .stale }
 
-/-- `applyUpdatesInternal`; `none` = the goroutine blocks forever on `mu.Lock()` (D4). -/
+/-- `Reset`: shapes, nextID, cellMap, cells, status — before b61d2d9 *not* pendingAdditionsPos and
+    pendingRemovals (D5). -/
+def Index.reset (f : Fixes) (s : Index) : Index :=
+  { s with shapes := [], nextID := 0, cells := [], status := .fresh, gone := [],
+           pendingAdditionsPos := if f.d5 then 0 else s.pendingAdditionsPos,
+           pendingRemovals := if f.d5 then [] else s.pendingRemovals }
+
+/-- the shape ids a build enters correctly into the index cells: all of them with the sentinel `nextID`;
+    with the old sentinel `Len()` (D52) only the ids below `Len()` -/
+def visible (f : Fixes) (s : Index) (ids : List Nat) : List Nat :=
+  if f.d52 then ids else ids.filter fun id => id < s.numPresent
+
+/-- `applyUpdatesInternal`; `none` = the goroutine blocks forever on `mu.Lock()` (D4).
+    Current code (d4): `if !isFirstUpdate() && (pendingAdditionsPos < nextID || len(pendingRemovals) > 0)`
+    { drop cellMap / cells, pendingAdditionsPos = 0, pendingRemovals = pendingRemovals[:0] }; then the loop over
+    `pendingRemovals` (`removeShapeInternal`: empty stub), `addShapeInternal` for the ids
+    `pendingAdditionsPos ≤ id < nextID` (a missing key is skipped), `pendingRemovals = pendingRemovals[:0]`,
+    `pendingAdditionsPos = nextID`. -/
 def applyUpdatesInternal (f : Fixes) (s : Index) : Option Index :=
-  let new := pendingLive s.shapes s.pendingAdditionsPos
+  let new := visible f s (pendingLive s.shapes s.pendingAdditionsPos)
   if s.pendingAdditionsPos == 0 then
-    some { s with cells := s.cells ++ new, pendingAdditionsPos := s.shapes.length }
+    some { s with cells := s.cells ++ new, pendingAdditionsPos := s.shapes.length, pendingRemovals := [] }
   else if f.d4 then
-    -- repair: drop the cell map and re-run as a first update over all shapes
-    some { s with cells := pendingLive s.shapes 0, pendingAdditionsPos := s.shapes.length }
+    if s.pendingAdditionsPos < s.nextID || !s.pendingRemovals.isEmpty then
+      -- drop the cell map and re-run as a first update over all shapes still in the map
+      some { s with cells := visible f s (pendingLive s.shapes 0), pendingAdditionsPos := s.shapes.length,
+                    pendingRemovals := [] }
+    else
+      -- nothing pending (a second goroutine that also saw `stale`): the index is not touched
+      some { s with pendingAdditionsPos := s.shapes.length }
   else if new.isEmpty then
-    -- every face returns early from updateFaceEdges (no edges, tracker empty)
-    some { s with pendingAdditionsPos := s.shapes.length }
+    -- before a4a8224: every face returns early from updateFaceEdges (no edges, tracker empty); a queued
+    -- removal is handed to the stub `removeShapeInternal`, i.e. the removed shape STAYS in the cells
+    some { s with pendingAdditionsPos := s.shapes.length, pendingRemovals := [] }
   else none
 
 /-- `maybeApplyUpdates` (single-threaded reading; the concurrent one is `S2.Protocol`). -/
@@ -502,6 +574,7 @@ deriving DecidableEq, Repr
 
 inductive Op
   | add (sh : Shape) | build | reset | query
+  | remove (k : Nat)                              -- `Remove` of the k-th shape present in the index (k from 0)
   | newEQ (o : Opts) | call (k : QKind) (thr : Nat) | eqReset
   | invert | loopContains | loopCell
   | polyInvert | polyContains
@@ -524,6 +597,10 @@ def stepV (f : Fixes) (s : State) (op : Op) : State × Out :=
   match op with
   | .add sh => let (i, n) := s.idx.add sh; ({ s with idx := i, eq := none }, .id n)
   | .reset => ({ s with idx := s.idx.reset f, eq := none }, .unit)
+  | .remove k =>
+    match (presentIds s.idx.shapes.length s.idx.gone)[k]? with
+    | some id => ({ s with idx := s.idx.remove id, eq := none }, .unit)
+    | none => (s, .outOfContract)       -- there is no such shape (the generators never ask for it)
   | .build =>
     match maybeApplyUpdates f s.idx with
     | some i => ({ s with idx := i }, .unit)
@@ -531,7 +608,10 @@ def stepV (f : Fixes) (s : State) (op : Op) : State × Out :=
   | .query =>
     -- NewContainsPointQuery / NewCrossingEdgeQuery: `iter: index.Iterator()`
     match maybeApplyUpdates f s.idx with
-    | some i => ({ s with idx := i }, .seen i.cells)
+    | some i =>
+      -- CrossingEdgeQuery.candidatesEdgeMap: `if len(c.index.shapes) == 1 { shape := c.index.Shape(0); … }` (D53)
+      if !f.d53 && i.numPresent == 1 && i.gone.contains 0 then die { s with idx := i } .panicked
+      else ({ s with idx := i }, .seen i.cells)
     | none => die s .stuck
   | .newEQ o => ({ s with eq := some (EQ.new o) }, .unit)
   | .eqReset =>
@@ -619,7 +699,8 @@ structure TGeo where
 deriving DecidableEq, Repr
 
 structure Geo where
-  shapes : List Shape
+  shapes : List Shape           -- the shapes by IDENTITY: position = the id `Add` returned for the shape;
+                                -- the position of a removed shape holds `Shape.gone`
   user : Option Opts            -- options of the live query object, if any
   loopVerts : Nat
   loopReversed : Bool
@@ -628,6 +709,7 @@ structure Geo where
   polyVerts : Nat
   polyInverted : Bool
   tgt : Option TGeo := none      -- the current target: geometry + what the caller configured
+  gone : List Nat := []          -- the identities (ids) of the removed shapes
 deriving DecidableEq, Repr
 
 def Target.geo (t : Target) : TGeo :=
@@ -635,7 +717,7 @@ def Target.geo (t : Target) : TGeo :=
 
 def abs (s : State) : Geo :=
   ⟨s.idx.shapes, s.eq.map (·.user), s.loop.nverts, s.loop.reversed, s.loop.originInside,
-   s.poly.kind, s.poly.nverts, s.poly.inverted, s.tgt.map Target.geo⟩
+   s.poly.kind, s.poly.nverts, s.poly.inverted, s.tgt.map Target.geo, s.idx.gone⟩
 
 /-- answer of a *fresh* EdgeQuery with options `u` on a *freshly built* index over `shapes` -/
 def specAns (shapes : List Shape) (u : Opts) (k : QKind) : EQAns :=
@@ -699,7 +781,11 @@ def spec (g : Geo) (op : Op) : Geo × Out :=
       | _ => (g, .eq ⟨specAns g.shapes u k, none⟩ u)
     | _, _ => (g, .outOfContract)
   | .add sh => ({ g with shapes := g.shapes ++ [sh], user := none }, .id g.shapes.length)
-  | .reset => ({ g with shapes := [], user := none }, .unit)
+  | .reset => ({ g with shapes := [], gone := [], user := none }, .unit)
+  | .remove k =>
+    match (presentIds g.shapes.length g.gone)[k]? with
+    | some id => ({ g with shapes := g.shapes.set id Shape.gone, gone := g.gone ++ [id], user := none }, .unit)
+    | none => (g, .outOfContract)
   | .build => (g, .unit)
   | .query => (g, .seen (liveIds g.shapes))
   | .newEQ o => ({ g with user := some o }, .unit)
